@@ -12,6 +12,20 @@
 // implied. See the License for the specific language governing
 // permissions and limitations under the License.
 
+// Verification hooks (off unless the `verif_hooks` feature is enabled).
+#[cfg(feature = "verif_hooks")]
+macro_rules! verif_emit {
+    ($($t:tt)*) => {
+        crate::verif::emit($($t)*)
+    };
+}
+#[cfg(not(feature = "verif_hooks"))]
+macro_rules! verif_emit {
+    ($($t:tt)*) => {};
+}
+#[cfg(feature = "verif_hooks")]
+pub mod verif;
+
 pub mod class;
 pub mod db;
 pub mod io;
